@@ -4,10 +4,12 @@
 From Coq Require Extraction.
 From Coq Require Import ExtrOcamlBasic.
 From CP Require Import Bytes Runtime TimePb Schema Codec Decode WF RefSpec.
+From CP Require Import LibSpec.
 Extraction Language OCaml.
 Extraction "model.ml"
   Bytes.enc_varint Bytes.dec_varint Bytes.n2b Bytes.b2n
   Runtime.Sov Runtime.Soz Runtime.protowire_size Runtime.EncodeVarint Runtime.Skip
   TimePb.TsAdd TimePb.TsAddStd TimePb.TsCompare
   Codec.pulsar_marshal Codec.msg_size Codec.emit Codec.key_ltb Decode.pulsar_unmarshal Decode.empty_msg
-  WF.wf WF.wt_msg RefSpec.ref_marshal RefSpec.canon RefSpec.strip_unknown RefSpec.norm.
+  WF.wf WF.wt_msg RefSpec.ref_marshal RefSpec.canon RefSpec.strip_unknown RefSpec.norm
+  LibSpec.equal_msg LibSpec.has_vector.
